@@ -97,6 +97,8 @@ inductive Op where
   | put (k : Key) (v : Val)
   | del (k : Key)
   | fail
+  /-- Insert of a value with more chunks than the key's size suffix allows (`keys.VerifyValue`) -/
+  | putBig (k : Key)
   deriving Repr, DecidableEq
 
 structure Tx where
@@ -172,6 +174,8 @@ inductive AbortKind where
 inductive FailKind where
   | scripted
   | perm
+  /-- `ErrInvalidKeyValue` -/
+  | invalid
   deriving Repr, DecidableEq
 
 /-- per-task local state: the tx view and the result being assembled -/
@@ -248,6 +252,9 @@ def stepInstr (t : Tx) (prices : Dims) (base : Key → Option Val) (ls : Local) 
     | none => failWith ls .perm
     | some p => .cont { ls with pend := p }
   | .op .fail => failWith ls .scripted
+  | .op (.putBig k) =>
+    -- `Insert`: checkScope(Write) first, then VerifyValue
+    if !hasPerm (t.perm k) pWrite then failWith ls .perm else failWith ls .invalid
   | .endAct => .cont { ls with outs := ls.outs ++ [ls.cur], cur := [] }
 
 inductive Outcome where
